@@ -36,7 +36,9 @@ def _load_chain(name):
     if name not in _cert_cache:
         cfg = QuicConfiguration(is_client=False)
         cfg.load_cert_chain(certs.path(name + ".pem"), certs.path(name + ".key"))
-        _cert_cache[name] = (cfg.certificate, cfg.certificate_chain, cfg.private_key)
+        from . import seams
+
+        _cert_cache[name] = (cfg.certificate, cfg.certificate_chain, seams.fixed_length_ec_key(cfg.private_key))
     return _cert_cache[name]
 
 
